@@ -17,6 +17,7 @@ import BlocV.Model.Parse
 import BlocV.Model.Unparse
 import BlocV.Spec.Roundtrip
 import BlocV.Model.Interp
+import BlocV.Proofs.Lemmas.ParseBlock   -- only for the fuel measure `C12L.ssizeB` (core-only file, no Mathlib)
 
 namespace BlocV.DrvC12
 open BlocV BlocV.Proto BlocV.Parse BlocV.Unparse BlocV.Roundtrip
@@ -100,7 +101,7 @@ def progToksOk (p : List PStmt) : Bool := tokensOf (unparseProgram p) == toksPro
 also those with blocks, which the theorem does not cover yet) -/
 def progRt (p : List PStmt) : Bool :=
   let ts := toksProgram p
-  match pProgram (2 * ts.length + 50) ts with
+  match pProgram (parseFuel ts) ts with
   | .ok q => reprStr q == reprStr (normP p)
   | .error _ => false
 
@@ -164,7 +165,7 @@ def handleUnp (hex : String) : String :=
     let t1 := unparseProgram p
     let b := fun (x : Bool) => if x then "1" else "0"
     let common := " wf=" ++ b (progWf p) ++ " lex=" ++ b (lexOk p) ++ " ptoks=" ++ b (progToksOk p) ++ " prt=" ++ b (progRt p) ++
-      " flat=" ++ b (wfFlatB p) ++ " isep=" ++ b (itemsOk p) ++ " pfix=" ++ b (progFix p) ++ " forms=" ++ forms p
+      " flat=" ++ b (wfFlatB p) ++ " wfp=" ++ b (wfP p) ++ " pfuel=" ++ b (decide (16 * BlocV.C12L.ssizeB p + 31 ≤ parseFuel (toksProgram p))) ++ " isep=" ++ b (itemsOk p) ++ " pfix=" ++ b (progFix p) ++ " forms=" ++ forms p
     let kf := regions p
     let kfs := " kf=" ++ (if kf.isEmpty then "-" else ",".intercalate kf)
     match parseText t1 with
